@@ -79,7 +79,82 @@ func runC11(w *World) {
 			w.Sleep(time.Duration(w.Range(0, 3000, "gapms")) * time.Millisecond)
 			continue
 		}
-		switch el := w.Draw(6, "element"); el {
+		switch el := w.Draw(8, "element"); el {
+		case 6, 7: // a connection collision whose survivor then fails before Established
+			cd := nextDial("expecting an attempt to accept (collision)")
+			if cd == nil {
+				return
+			}
+			cd.outcome = "accepted"
+			O := cd.d.Accept()
+			if O == nil || ExpectOpen(O, time.Second) == nil {
+				seq = append(seq, "collision-aborted")
+				if O != nil {
+					O.FIN()
+				}
+				w.Quiesce()
+				continue
+			}
+			I := e.OpenConn(p, DirIn, time.Minute)
+			if ExpectOpen(I, time.Second) == nil {
+				seq = append(seq, "collision-aborted")
+				O.FIN()
+				I.FIN()
+				w.Quiesce()
+				continue
+			}
+			w.Quiesce()
+			first, second := O, I
+			if w.Draw(2, "collfirst") == 1 {
+				first, second = I, O
+			}
+			first.SendSeg(p.Speaker.OpenFrame())
+			first.WaitFrame(time.Second)
+			w.Quiesce()
+			how := w.Draw(3, "collhow")
+			switch how {
+			case 0: // plain resolution, then the survivor fails in OpenConfirm
+				second.SendSeg(p.Speaker.OpenFrame())
+				w.Quiesce()
+			case 1: // the first connection goes down by itself while the second asks for OpenConfirm
+				w.Go("coll-down", func() { first.FIN() })
+				second.SendSeg(p.Speaker.OpenFrame())
+				w.Quiesce()
+			default: // ... or is reset
+				w.Go("coll-down", func() { first.RST() })
+				second.SendSeg(p.Speaker.OpenFrame())
+				w.Quiesce()
+			}
+			for _, c := range []*Conn{O, I} {
+				if !c.LocalClosed() && !c.RemoteClosed() {
+					if w.Draw(2, "collend") == 0 {
+						c.FIN()
+					} else {
+						c.RST()
+					}
+				}
+			}
+			w.Quiesce()
+			seq = append(seq, fmt.Sprintf("collision(%d)-then-survivor-fails", how))
+			w.Probe("collision-element")
+			if w.Draw(2, "coll-probe") == 0 {
+				// both connections are gone: the peer has no session, no inbound
+				// connection in progress and is not damped, so a new inbound
+				// connection must be served
+				c3 := e.OpenConn(p, DirIn, time.Minute)
+				if ExpectOpen(c3, time.Second) == nil {
+					w.Violate("C11/resume-dialling/inbound-not-admitted-after-collision", "after %v both connections were gone, yet a new inbound connection was not admitted (closed=%v, %d bytes)", seq, c3.LocalClosed(), c3.OutLen())
+					return
+				}
+				c3.FIN()
+				w.Quiesce()
+				w.Probe("inbound-admitted-after-collision")
+			}
+			for _, d := range p.Site.DialList() {
+				if d.Returned {
+					d.Taken = true
+				}
+			}
 		case 0, 1: // refuse after delta
 			cd := nextDial("expecting an attempt to refuse")
 			if cd == nil {
@@ -271,5 +346,32 @@ func runC11(w *World) {
 		return
 	}
 	_ = dir
+	// once the final session ends the peer must again accept an inbound connection
+	// (and, if active, dial): nothing of the fault history may linger
+	if w.Chance(1, 2, "final-admission") {
+		p.Site.DialPolicy = func(*DialRec) int { return 2 }
+		p.Site.OnConn = nil
+		for _, c := range p.Site.ConnList() {
+			if !c.LocalClosed() && !c.RemoteClosed() {
+				c.FIN()
+			}
+		}
+		w.WaitUntil("c11.finaldown", 10*time.Second, p.Plug.IsDown)
+		w.Quiesce()
+		for _, d := range p.Site.DialList() {
+			if d.Pending() {
+				d.Refuse()
+			}
+		}
+		w.Quiesce()
+		c2 := e.OpenConn(p, DirIn, time.Minute)
+		if ExpectOpen(c2, time.Second) == nil {
+			w.Violate("C11/resume-dialling/inbound-not-admitted-after-history", "after the history %v and a final session that ended normally, a new inbound connection was not admitted (closed=%v, %d bytes)", seq, c2.LocalClosed(), c2.OutLen())
+			return
+		}
+		w.Probe("final-inbound-admitted")
+		c2.FIN()
+		w.Quiesce()
+	}
 	e.FinishRun()
 }
